@@ -2,11 +2,17 @@
 //! scenario scripts against the real `tiny_std::thread::spawn` / `JoinHandle::join` / `Drop`.
 //!
 //! Script (stdin), one batch = the threads that are live together:
-//!   t <id> <ret|panic> <d_us> <class> <join|drop|dropnow> <d2_us>      (id < 64, class 0..12)
+//!   t <id> <ret|panic> <d_us> <class> <join|drop|dropnow> <d2_us>      (id < 64, class 0..14)
 //! Result classes: 0 (), 1 u8, 2 u64, 3 [u8;4096], 4 align-64 struct, 5 Box<[u64;3]> (size / alignment / ownership
 //! sweep) and 6 bool, 7 char, 8 core::cmp::Ordering, 9 field-less enum, 10 Option<u32>, 11 Result<u8,u8>,
 //! 12 struct(bool) with a counting destructor: types whose `Option<T>::None` is a NON-zero bit pattern, so that a
 //! result slot that was only zeroed (not initialised to `None`) shows as `Some(..)` for a thread that panicked.
+//! Classes 13 / 14: a result whose DESTRUCTOR PANICS — 13 wherever it runs, 14 only when it runs on a spawned thread
+//! (on the main thread it returns normally).  The runtime runs the destructor of a result nobody joined: on the spawned
+//! thread when the handle was dropped before the closure returned (then the panic handler starts in the middle of the
+//! thread's epilogue), on the handle's thread otherwise.  A class-13 closure whose handle is dropped holds its return
+//! until the handle is gone (so the destructor certainly runs on the spawned thread — on the main thread it would end the
+//! probe); a joined class-13 value is forgotten by the probe, a joined class-14 value is dropped by it (no panic on main).
 //!   go                                                                  run the batch collected so far
 //! Per batch the main thread: measures a baseline, spawns every thread in script order (`dropnow` handles
 //! are dropped right after their spawn), then walks the handles in script order (sleep d2, join | drop),
@@ -16,8 +22,13 @@
 //! (a `pread64` on an invalid descriptor: no effect, EBADF):
 //!   pread64(-2, kind, id, aux)                 protocol markers  b/e batch, S/s spawn, J/R join, D/d drop,
 //!                                              B/E/P closure begin / end (aux = digest) / about to panic
+//!                                              x/X destructor of a class-13/14 value entered: returns / about to panic
+//!                                              (aux = 1 on the main thread), f joined class-13 value forgotten
 //!   pread64(-1, ptr, size, align << 1 | op)    heap event of the counting allocator (op 0 = alloc, 1 = free),
 //!                                              issued while the allocator lock is held (alloc: after, free: before)
+//! The allocator wrapper fills every released block with 0xDD and keeps it in a quarantine ring (256 blocks) before it
+//! hands it back to Dlmalloc: a read through a dangling pointer sees 0xDD.., and a second release of a quarantined block
+//! is reported by its marker like any other release but not passed on (the run continues deterministically).
 //! The text records on stdout (flushed once per batch) carry what strace cannot see: values, run counters,
 //! visibility of the closure's plain memory write after join, live heap bytes/blocks, VmSize, mapping list.
 #![no_std]
@@ -44,6 +55,7 @@ const SYS_OPEN: usize = 2;
 const SYS_CLOSE: usize = 3;
 const SYS_PREAD64: usize = 17;
 const SYS_NANOSLEEP: usize = 35;
+const SYS_GETTID: usize = 186;
 const SYS_EXIT_GROUP: usize = 231;
 
 #[inline(never)]
@@ -76,6 +88,7 @@ fn die(code: usize) -> ! {
 static LIVE_BYTES: AtomicUsize = AtomicUsize::new(0);
 static LIVE_BLOCKS: AtomicUsize = AtomicUsize::new(0);
 static HEAP_LOG: AtomicU32 = AtomicU32::new(0);
+static DOUBLE_FREES: AtomicU32 = AtomicU32::new(0);
 
 #[cfg(feature = "counting")]
 mod counting {
@@ -83,12 +96,45 @@ mod counting {
     use core::alloc::{GlobalAlloc, Layout};
     use tiny_std::allocator::dlmalloc::Dlmalloc;
 
-    pub struct Counting(tiny_std::sync::Mutex<Dlmalloc>);
+    const QN: usize = 256;
+    /// released blocks not yet handed back to Dlmalloc (poisoned), oldest first
+    pub struct Inner {
+        dl: Dlmalloc,
+        q: [usize; QN],
+        head: usize,
+        len: usize,
+    }
+    impl Inner {
+        fn quarantined(&self, p: usize) -> bool {
+            let mut i = 0;
+            while i < self.len {
+                if self.q[(self.head + i) % QN] == p {
+                    return true;
+                }
+                i += 1;
+            }
+            false
+        }
+        /// -> the block that leaves the quarantine, if it was full
+        fn push(&mut self, p: usize) -> Option<usize> {
+            let mut out = None;
+            if self.len == QN {
+                out = Some(self.q[self.head]);
+                self.head = (self.head + 1) % QN;
+                self.len -= 1;
+            }
+            self.q[(self.head + self.len) % QN] = p;
+            self.len += 1;
+            out
+        }
+    }
+
+    pub struct Counting(tiny_std::sync::Mutex<Inner>);
     unsafe impl Sync for Counting {}
     unsafe impl Send for Counting {}
 
     #[global_allocator]
-    static GLOBAL: Counting = Counting(tiny_std::sync::Mutex::new(Dlmalloc::new()));
+    static GLOBAL: Counting = Counting(tiny_std::sync::Mutex::new(Inner { dl: Dlmalloc::new(), q: [0; QN], head: 0, len: 0 }));
 
     #[inline(always)]
     unsafe fn note(op: usize, p: *mut u8, l: Layout) {
@@ -107,25 +153,35 @@ mod counting {
     unsafe impl GlobalAlloc for Counting {
         unsafe fn alloc(&self, l: Layout) -> *mut u8 {
             let mut g = self.0.lock();
-            let p = g.malloc(l.size(), l.align());
+            let p = g.dl.malloc(l.size(), l.align());
             note(0, p, l);
             p
         }
         unsafe fn dealloc(&self, p: *mut u8, l: Layout) {
             let mut g = self.0.lock();
             note(1, p, l);
-            g.free(p);
+            if g.quarantined(p as usize) {
+                // released a second time while still in quarantine: the marker above reports it; Dlmalloc never sees it
+                DOUBLE_FREES.fetch_add(1, Ordering::Relaxed);
+                return;
+            }
+            if l.size() <= (1 << 20) {
+                core::ptr::write_bytes(p, 0xDD, l.size());
+            }
+            if let Some(old) = g.push(p as usize) {
+                g.dl.free(old as *mut u8);
+            }
         }
         unsafe fn alloc_zeroed(&self, l: Layout) -> *mut u8 {
             let mut g = self.0.lock();
-            let p = g.calloc(l.size(), l.align());
+            let p = g.dl.calloc(l.size(), l.align());
             note(0, p, l);
             p
         }
         unsafe fn realloc(&self, p: *mut u8, l: Layout, new_size: usize) -> *mut u8 {
             let mut g = self.0.lock();
             note(1, p, l);
-            let q = g.realloc(p, l.size(), l.align(), new_size);
+            let q = g.dl.realloc(p, l.size(), l.align(), new_size);
             note(0, q, Layout::from_size_align_unchecked(new_size, l.align()));
             q
         }
@@ -256,18 +312,22 @@ fn maps() -> (u64, u64) {
 
 // ------------------------------------------------------------------ result type classes
 
-trait Val: Send + 'static {
-    fn make(token: u64) -> Self;
+trait Val: Send + 'static + Sized {
+    fn make(token: u64, id: usize) -> Self;
     fn digest(&self) -> u64;
+    /// what the probe does with a value `join` handed to it, once it has taken the digest
+    fn finish(self) {
+        drop(self)
+    }
 }
 impl Val for () {
-    fn make(_: u64) -> Self {}
+    fn make(_: u64, _: usize) -> Self {}
     fn digest(&self) -> u64 {
         0
     }
 }
 impl Val for u8 {
-    fn make(t: u64) -> Self {
+    fn make(t: u64, _: usize) -> Self {
         t as u8
     }
     fn digest(&self) -> u64 {
@@ -275,7 +335,7 @@ impl Val for u8 {
     }
 }
 impl Val for u64 {
-    fn make(t: u64) -> Self {
+    fn make(t: u64, _: usize) -> Self {
         t
     }
     fn digest(&self) -> u64 {
@@ -283,7 +343,7 @@ impl Val for u64 {
     }
 }
 impl Val for [u8; 4096] {
-    fn make(t: u64) -> Self {
+    fn make(t: u64, _: usize) -> Self {
         let mut a = [0u8; 4096];
         let mut x = t | 1;
         for b in a.iter_mut() {
@@ -303,7 +363,7 @@ impl Val for [u8; 4096] {
 #[repr(align(64))]
 struct A64([u64; 2]);
 impl Val for A64 {
-    fn make(t: u64) -> Self {
+    fn make(t: u64, _: usize) -> Self {
         A64([t, !t])
     }
     fn digest(&self) -> u64 {
@@ -316,7 +376,7 @@ impl Val for A64 {
 }
 /// a result that owns heap memory allocated on the spawned thread and released by the joiner
 impl Val for alloc::boxed::Box<[u64; 3]> {
-    fn make(t: u64) -> Self {
+    fn make(t: u64, _: usize) -> Self {
         alloc::boxed::Box::new([t, t ^ 0x55, 7])
     }
     fn digest(&self) -> u64 {
@@ -329,7 +389,7 @@ impl Val for alloc::boxed::Box<[u64; 3]> {
 }
 
 impl Val for bool {
-    fn make(t: u64) -> Self {
+    fn make(t: u64, _: usize) -> Self {
         (t >> 1) & 1 == 1
     }
     fn digest(&self) -> u64 {
@@ -337,7 +397,7 @@ impl Val for bool {
     }
 }
 impl Val for char {
-    fn make(t: u64) -> Self {
+    fn make(t: u64, _: usize) -> Self {
         char::from_u32(((t >> 1) % 0xD800) as u32).unwrap_or('?')
     }
     fn digest(&self) -> u64 {
@@ -345,7 +405,7 @@ impl Val for char {
     }
 }
 impl Val for core::cmp::Ordering {
-    fn make(t: u64) -> Self {
+    fn make(t: u64, _: usize) -> Self {
         match (t >> 1) % 3 {
             0 => core::cmp::Ordering::Less,
             1 => core::cmp::Ordering::Equal,
@@ -363,7 +423,7 @@ enum Colour {
     Blue,
 }
 impl Val for Colour {
-    fn make(t: u64) -> Self {
+    fn make(t: u64, _: usize) -> Self {
         match (t >> 1) % 3 {
             0 => Colour::Red,
             1 => Colour::Green,
@@ -375,7 +435,7 @@ impl Val for Colour {
     }
 }
 impl Val for Option<u32> {
-    fn make(t: u64) -> Self {
+    fn make(t: u64, _: usize) -> Self {
         if (t >> 1) % 3 == 0 {
             None
         } else {
@@ -390,7 +450,7 @@ impl Val for Option<u32> {
     }
 }
 impl Val for Result<u8, u8> {
-    fn make(t: u64) -> Self {
+    fn make(t: u64, _: usize) -> Self {
         if (t >> 1) & 1 == 1 {
             Ok((t >> 8) as u8)
         } else {
@@ -415,12 +475,60 @@ impl Drop for Flagged {
     }
 }
 impl Val for Flagged {
-    fn make(t: u64) -> Self {
+    fn make(t: u64, _: usize) -> Self {
         MADE.fetch_add(1, Ordering::Relaxed);
         Flagged((t >> 1) & 1 == 1)
     }
     fn digest(&self) -> u64 {
         self.0 as u64
+    }
+}
+
+/// classes 13 / 14: a value whose destructor panics (ALWAYS: wherever it runs; else: only on a spawned thread)
+static MAIN_TID: AtomicUsize = AtomicUsize::new(0);
+static BOMB_MADE: AtomicU32 = AtomicU32::new(0);
+static BOMB_DROPS: AtomicU32 = AtomicU32::new(0);
+static BOMB_FORGOT: AtomicU32 = AtomicU32::new(0);
+fn on_main_thread() -> bool {
+    (unsafe { sys4(SYS_GETTID, 0, 0, 0, 0) }) as usize == MAIN_TID.load(Ordering::Relaxed)
+}
+struct Bomb<const ALWAYS: bool> {
+    id: u32,
+    tok: u64,
+}
+impl<const ALWAYS: bool> Drop for Bomb<ALWAYS> {
+    fn drop(&mut self) {
+        let on_main = on_main_thread();
+        BOMB_DROPS.fetch_add(1, Ordering::Relaxed);
+        if ALWAYS || !on_main {
+            mark(b'X', self.id as usize, on_main as usize);
+            panic!("c05probe: scripted destructor panic");
+        }
+        mark(b'x', self.id as usize, on_main as usize);
+    }
+}
+impl Val for Bomb<true> {
+    fn make(t: u64, id: usize) -> Self {
+        BOMB_MADE.fetch_add(1, Ordering::Relaxed);
+        Bomb { id: id as u32, tok: t }
+    }
+    fn digest(&self) -> u64 {
+        self.tok
+    }
+    /// dropping it on the main thread would end the process: the probe keeps it out of reach of any destructor
+    fn finish(self) {
+        BOMB_FORGOT.fetch_add(1, Ordering::Relaxed);
+        mark(b'f', self.id as usize, 0);
+        core::mem::forget(self)
+    }
+}
+impl Val for Bomb<false> {
+    fn make(t: u64, id: usize) -> Self {
+        BOMB_MADE.fetch_add(1, Ordering::Relaxed);
+        Bomb { id: id as u32, tok: t }
+    }
+    fn digest(&self) -> u64 {
+        self.tok
     }
 }
 
@@ -438,11 +546,15 @@ enum Handle {
     C10(JoinHandle<Option<u32>>),
     C11(JoinHandle<Result<u8, u8>>),
     C12(JoinHandle<Flagged>),
+    C13(JoinHandle<Bomb<true>>),
+    C14(JoinHandle<Bomb<false>>),
 }
 
 const MAXT: usize = 64;
 const Z: AtomicU32 = AtomicU32::new(0);
 static RUNS: [AtomicU32; MAXT] = [Z; MAXT];
+/// set by the main thread once the handle of <id> is gone (class 13 with a dropped handle: the closure holds its return until then)
+static GATE: [AtomicU32; MAXT] = [Z; MAXT];
 struct Cells([UnsafeCell<u64>; MAXT]);
 unsafe impl Sync for Cells {}
 const ZC: UnsafeCell<u64> = UnsafeCell::new(0);
@@ -453,7 +565,7 @@ fn token(batch: usize, id: usize) -> u64 {
     (x >> 2) | 1
 }
 
-fn spawn_one<T: Val>(batch: usize, id: usize, panics: bool, d: usize) -> tiny_std::Result<JoinHandle<T>> {
+fn spawn_one<T: Val>(batch: usize, id: usize, panics: bool, d: usize, gate: bool) -> tiny_std::Result<JoinHandle<T>> {
     let tok = token(batch, id);
     tiny_std::thread::spawn(move || {
         let local = 0u8;
@@ -466,14 +578,25 @@ fn spawn_one<T: Val>(batch: usize, id: usize, panics: bool, d: usize) -> tiny_st
             mark(b'P', id, 0);
             panic!("c05probe: scripted panic");
         }
-        let v = T::make(tok);
+        if gate {
+            let mut waited = 0;
+            while GATE[id].load(Ordering::Acquire) == 0 && waited < 100_000 {
+                sleep_us(100);
+                waited += 1;
+            }
+        }
+        let v = T::make(tok, id);
         mark(b'E', id, v.digest() as usize);
         v
     })
 }
 
 fn join_one<T: Val>(h: JoinHandle<T>) -> Option<u64> {
-    h.join().map(|v| v.digest())
+    h.join().map(|v| {
+        let d = v.digest();
+        v.finish();
+        d
+    })
 }
 
 #[derive(Clone, Copy)]
@@ -495,19 +618,21 @@ fn errno_of(e: &tiny_std::Error) -> u64 {
 
 fn spawn_spec(batch: usize, sp: &Spec) -> Result<Handle, u64> {
     let r = match sp.class {
-        0 => spawn_one::<()>(batch, sp.id, sp.panics, sp.d).map(Handle::C0),
-        1 => spawn_one::<u8>(batch, sp.id, sp.panics, sp.d).map(Handle::C1),
-        2 => spawn_one::<u64>(batch, sp.id, sp.panics, sp.d).map(Handle::C2),
-        3 => spawn_one::<[u8; 4096]>(batch, sp.id, sp.panics, sp.d).map(Handle::C3),
-        4 => spawn_one::<A64>(batch, sp.id, sp.panics, sp.d).map(Handle::C4),
-        5 => spawn_one::<alloc::boxed::Box<[u64; 3]>>(batch, sp.id, sp.panics, sp.d).map(Handle::C5),
-        6 => spawn_one::<bool>(batch, sp.id, sp.panics, sp.d).map(Handle::C6),
-        7 => spawn_one::<char>(batch, sp.id, sp.panics, sp.d).map(Handle::C7),
-        8 => spawn_one::<core::cmp::Ordering>(batch, sp.id, sp.panics, sp.d).map(Handle::C8),
-        9 => spawn_one::<Colour>(batch, sp.id, sp.panics, sp.d).map(Handle::C9),
-        10 => spawn_one::<Option<u32>>(batch, sp.id, sp.panics, sp.d).map(Handle::C10),
-        11 => spawn_one::<Result<u8, u8>>(batch, sp.id, sp.panics, sp.d).map(Handle::C11),
-        _ => spawn_one::<Flagged>(batch, sp.id, sp.panics, sp.d).map(Handle::C12),
+        0 => spawn_one::<()>(batch, sp.id, sp.panics, sp.d, false).map(Handle::C0),
+        1 => spawn_one::<u8>(batch, sp.id, sp.panics, sp.d, false).map(Handle::C1),
+        2 => spawn_one::<u64>(batch, sp.id, sp.panics, sp.d, false).map(Handle::C2),
+        3 => spawn_one::<[u8; 4096]>(batch, sp.id, sp.panics, sp.d, false).map(Handle::C3),
+        4 => spawn_one::<A64>(batch, sp.id, sp.panics, sp.d, false).map(Handle::C4),
+        5 => spawn_one::<alloc::boxed::Box<[u64; 3]>>(batch, sp.id, sp.panics, sp.d, false).map(Handle::C5),
+        6 => spawn_one::<bool>(batch, sp.id, sp.panics, sp.d, false).map(Handle::C6),
+        7 => spawn_one::<char>(batch, sp.id, sp.panics, sp.d, false).map(Handle::C7),
+        8 => spawn_one::<core::cmp::Ordering>(batch, sp.id, sp.panics, sp.d, false).map(Handle::C8),
+        9 => spawn_one::<Colour>(batch, sp.id, sp.panics, sp.d, false).map(Handle::C9),
+        10 => spawn_one::<Option<u32>>(batch, sp.id, sp.panics, sp.d, false).map(Handle::C10),
+        11 => spawn_one::<Result<u8, u8>>(batch, sp.id, sp.panics, sp.d, false).map(Handle::C11),
+        12 => spawn_one::<Flagged>(batch, sp.id, sp.panics, sp.d, false).map(Handle::C12),
+        13 => spawn_one::<Bomb<true>>(batch, sp.id, sp.panics, sp.d, sp.action != b'j').map(Handle::C13),
+        _ => spawn_one::<Bomb<false>>(batch, sp.id, sp.panics, sp.d, false).map(Handle::C14),
     };
     r.map_err(|e| errno_of(&e))
 }
@@ -529,6 +654,7 @@ fn run_batch(batch: usize, specs: &[Spec]) {
     let mut handles: [Option<Handle>; MAXT] = [NONE; MAXT];
     for sp in specs {
         RUNS[sp.id].store(0, Ordering::Relaxed);
+        GATE[sp.id].store(0, Ordering::Relaxed);
         unsafe { EFFECT.0[sp.id].get().write_volatile(0) };
     }
     s("batch");
@@ -537,6 +663,10 @@ fn run_batch(batch: usize, specs: &[Spec]) {
     s("\n");
     MADE.store(0, Ordering::Relaxed);
     DROPPED.store(0, Ordering::Relaxed);
+    BOMB_MADE.store(0, Ordering::Relaxed);
+    BOMB_DROPS.store(0, Ordering::Relaxed);
+    BOMB_FORGOT.store(0, Ordering::Relaxed);
+    DOUBLE_FREES.store(0, Ordering::Relaxed);
     measure("before");
     HEAP_LOG.store(1, Ordering::Relaxed);
     mark(b'b', batch, specs.len());
@@ -552,6 +682,7 @@ fn run_batch(batch: usize, specs: &[Spec]) {
                     mark(b'D', sp.id, 0);
                     drop(h);
                     mark(b'd', sp.id, 0);
+                    GATE[sp.id].store(1, Ordering::Release);
                     s("drop");
                     num(sp.id as u64);
                     s("\n");
@@ -591,6 +722,8 @@ fn run_batch(batch: usize, specs: &[Spec]) {
                 Handle::C10(h) => join_one(h),
                 Handle::C11(h) => join_one(h),
                 Handle::C12(h) => join_one(h),
+                Handle::C13(h) => join_one(h),
+                Handle::C14(h) => join_one(h),
             };
             // the closure's plain write, read after join returned
             let eff = unsafe { EFFECT.0[sp.id].get().read_volatile() };
@@ -617,6 +750,7 @@ fn run_batch(batch: usize, specs: &[Spec]) {
             mark(b'D', sp.id, 0);
             drop(h);
             mark(b'd', sp.id, 0);
+            GATE[sp.id].store(1, Ordering::Release);
             s("drop");
             num(sp.id as u64);
             s("\n");
@@ -643,6 +777,14 @@ fn run_batch(batch: usize, specs: &[Spec]) {
     s("drops");
     num(MADE.load(Ordering::Relaxed) as u64);
     num(DROPPED.load(Ordering::Relaxed) as u64);
+    s("\n");
+    // values whose destructor panics: made / destructor entered / forgotten by the probe after a join; releases the
+    // allocator wrapper refused because the block was already in quarantine
+    s("bombs");
+    num(BOMB_MADE.load(Ordering::Relaxed) as u64);
+    num(BOMB_DROPS.load(Ordering::Relaxed) as u64);
+    num(BOMB_FORGOT.load(Ordering::Relaxed) as u64);
+    num(DOUBLE_FREES.load(Ordering::Relaxed) as u64);
     s("\n");
     s("end");
     num(batch as u64);
@@ -674,6 +816,8 @@ fn class_sizes() {
     c!(10, Option<u32>);
     c!(11, Result<u8, u8>);
     c!(12, Flagged);
+    c!(13, Bomb<true>);
+    c!(14, Bomb<false>);
 }
 
 fn parse_usize(b: &[u8]) -> Option<usize> {
@@ -704,6 +848,7 @@ pub fn main() -> i32 {
         }
         &SCRIPT[..len]
     };
+    MAIN_TID.store(unsafe { sys4(SYS_GETTID, 0, 0, 0, 0) } as usize, Ordering::Relaxed);
     class_sizes();
     let mut specs = [Spec { id: 0, panics: false, d: 0, class: 0, action: b'j', d2: 0 }; MAXT];
     let mut n = 0;
@@ -735,7 +880,7 @@ pub fn main() -> i32 {
                         _ => return None,
                     };
                     let d2 = parse_usize(f[5]?)?;
-                    if id >= MAXT || class > 12 || n >= MAXT {
+                    if id >= MAXT || class > 14 || n >= MAXT {
                         return None;
                     }
                     Some(Spec { id, panics, d, class, action, d2 })
